@@ -652,6 +652,12 @@ func checkC08(c *Ctx) {
 	c.NotDecided("the time bound 'timeout plus a bounded number of successes'; reachability over bounded histories")
 
 	lockOrder(c)
+	// no path of a breaker function returns with the breaker's lock still held (every later Execute,
+	// State and Counts call would block for ever)
+	lockPairing(c, func(fn *ssa.Function) bool {
+		pk := fnPkg(fn)
+		return pk != nil && strings.HasSuffix(pk.Pkg.Path(), "/circuitbreaker")
+	})
 
 	// (3),(4): the admission relation (closed never rejects, open+elapsed admits) — shared with C07
 	exec := p.Fn("internal/circuitbreaker", "CircuitBreaker", "Execute")
